@@ -21,7 +21,7 @@ def one(pid):
     cfg = props.PROPS[pid]
     msgs = []
     if cfg.get("ocaml"):
-        o, out = V.build_ocaml(cfg["ocaml"])
+        o, out = V.build_ocaml(cfg["ocaml"], cfg.get("coq_targets") or ["Check/%s.vo" % pid])
         msgs.append("ocaml %s" % ("ok" if o else "FAILED\n" + out[-1500:]))
     if cfg.get("harness", True):
         o, out, exe = V.build_harness(pid, cfg.get("race", False))
